@@ -628,7 +628,7 @@ def write(repo=None, dest=DEST):
 # C19x: check_database for files of every older version, as the calls it makes on the connection
 # (recorded by running the real method on an uninitialised instance whose execute / executescript / commit only
 # take notes) and, inside each call, the SQL statements one by one.  -> coq/gen/G19x_upgrade.v
-DEST_X = "/verif/coq/gen/G19x_upgrade.v"
+DEST_X = os.path.join(os.path.dirname(DEST), "G19x_upgrade.v")
 
 
 def record_check(cls, version: int, db_name=None):
